@@ -97,6 +97,13 @@ func (h *harness) crashcheck(k int) (event, error) {
 	lv.Release()
 	h.mgr.VerifDump()
 
+	liveConfig := h.mgr.Config()
+	liveHooks := append([]string(nil), h.mgr.ListPcapProcessorWebhooks()...)
+	liveEndpoints := []string{}
+	for _, e := range h.mgr.ListPcapOverIPEndpoints() {
+		liveEndpoints = append(liveEndpoints, e.Address)
+	}
+	sort.Strings(liveEndpoints)
 	copyBase := h.base + fmt.Sprintf("-crash%d", h.lineNo)
 	if err := copyTree(h.base, copyBase); err != nil {
 		return nil, err
@@ -105,24 +112,57 @@ func (h *harness) crashcheck(k int) (event, error) {
 
 	cut := ""
 	if k > 0 {
-		// candidates: the files written most recently (names carry their creation time), newest first;
-		// capture files and the converter executable are never cut (they are inputs, not service state)
+		// Only a crash inside the LAST file operation before this point is a reachable state ("every prefix
+		// of the file-operation sequence"): the file modified most recently is the one that may be cut.
+		// (Cutting an older file would un-write data that later operations already relied on.)
 		files := listDisk(copyBase)
+		var newest *diskFile
+		var newestT int64
+		for i := range files {
+			fi, err := os.Stat(filepath.Join(h.base, files[i].Dir, files[i].Name))
+			if err != nil {
+				continue
+			}
+			if t := fi.ModTime().UnixNano(); newest == nil || t > newestT || (t == newestT && files[i].Name > newest.Name) {
+				newest, newestT = &files[i], t
+			}
+		}
 		cands := []diskFile{}
-		for i := len(files) - 1; i >= 0 && len(cands) < 4; i-- {
-			cands = append(cands, files[i])
+		// state and snapshot files are replaced by "write the new file completely, then remove the old one":
+		// while the new one is being written the old one still exists, a combination this copy (old one
+		// already removed) cannot show — that crash window is covered by the Lean theorem
+		// `saveState_crash_safe`; here only index files and converter cache files are cut
+		if newest != nil && newest.Dir == "index" {
+			cands = append(cands, *newest)
 		}
 		if len(cands) != 0 {
-			f := cands[(k-1)%len(cands)]
+			f := cands[0]
 			points := []int64{0, 1, f.Size / 2, f.Size - 1, 16, f.Size - 8}
-			at := points[((k-1)/len(cands))%len(points)]
+			at := points[(k-1)%len(points)]
 			if at < 0 {
 				at = 0
 			}
 			if at > f.Size {
 				at = f.Size
 			}
-			if err := os.Truncate(filepath.Join(copyBase, f.Dir, f.Name), at); err != nil {
+			path := filepath.Join(copyBase, f.Dir, f.Name)
+			if strings.HasSuffix(f.Name, ".idx") {
+				// index.Writer.Finalize writes the sections first and the header (with the magic) LAST, at offset 0:
+				// a crash inside the write leaves a file whose header is still the zero placeholder, with any
+				// prefix of the body behind it. (Cutting the tail of a file that already has its header is not a
+				// state a crash can produce.)
+				fh, err := os.OpenFile(path, os.O_WRONLY, 0)
+				if err != nil {
+					return nil, err
+				}
+				fh.WriteAt(make([]byte, 16), 0)
+				fh.Close()
+				if at > 16 {
+					if err := os.Truncate(path, at); err != nil {
+						return nil, err
+					}
+				}
+			} else if err := os.Truncate(path, at); err != nil {
 				return nil, err
 			}
 			cut = fmt.Sprintf("%s/%s@%d/%d", f.Dir, f.Name, at, f.Size)
@@ -222,6 +262,23 @@ func (h *harness) crashcheck(k int) (event, error) {
 		}
 		if len(rt) != len(liveTags) {
 			h.complain("C12", "restart (cut %q) shows %d tags, %d were acknowledged", cut, len(rt), len(liveTags))
+		}
+	}
+	// --- acknowledged settings and endpoints survive
+	if cut == "" || !strings.HasPrefix(cut, "state/") {
+		if c := rh.mgr.Config(); c != liveConfig {
+			h.complain("C12", "setting differs after restart (cut %q): %+v, acknowledged %+v", cut, c, liveConfig)
+		}
+		if hooks := rh.mgr.ListPcapProcessorWebhooks(); strings.Join(hooks, ",") != strings.Join(liveHooks, ",") {
+			h.complain("C12", "webhooks differ after restart (cut %q): %v, acknowledged %v", cut, hooks, liveHooks)
+		}
+		eps := []string{}
+		for _, e := range rh.mgr.ListPcapOverIPEndpoints() {
+			eps = append(eps, e.Address)
+		}
+		sort.Strings(eps)
+		if strings.Join(eps, ",") != strings.Join(liveEndpoints, ",") {
+			h.complain("C12", "pcap-over-ip endpoints differ after restart (cut %q): %v, acknowledged %v", cut, eps, liveEndpoints)
 		}
 	}
 	// --- every stream of a completed import is visible under its old id, with its data
